@@ -227,6 +227,10 @@ set_prolog_flag(occurs_check, error) :-
     !, '$set_sto_with_error_as_unify'.
 set_prolog_flag(double_quotes, Value) :-
     flag_domain_error(double_quotes, Value).
+set_prolog_flag(unknown, Value) :-
+    flag_domain_error(unknown, Value).
+set_prolog_flag(occurs_check, Value) :-
+    flag_domain_error(occurs_check, Value).
 set_prolog_flag(answer_write_options, Options) :-
     !,
     catch(catch(builtins:parse_write_options(Options, _, set_prolog_flag/2),
